@@ -2,6 +2,8 @@
 
 R11.1 spans index the user's text: span-producing parsers are handed the caller's WHOLE text, never a sub-slice
 R11.2 flag plumbing: header key <-> LexFlags field <-> default <-> RegexBuilder setter <-> builder setter agree by name
+R11.4 no integer `as` cast in the library crates narrows (or changes signedness): numeric settings (size_limit, dfa_size_limit,
+      nest_limit) travel header(u64) <-> field(usize/u32); a lossy cast puts a value in force that was not the one given
 """
 from mirlib import *
 
@@ -289,7 +291,47 @@ def r113(facts, res):
             res.bad(R, key, loc_of(b, bb), 'this producer builds the rest-of-text component as %s while the scan needs text[pos..]: multi-character escapes (\\xHH, \\uHHHH) after it are no longer recognised' % shape)
 
 
+INT_BITS = {'u8': 8, 'u16': 16, 'u32': 32, 'u64': 64, 'usize': 64, 'u128': 128, 'i8': 8, 'i16': 16, 'i32': 32, 'i64': 64, 'isize': 64, 'i128': 128}
+
+
+def r114(facts, res):
+    """a number given as a setting is never narrowed with `as`: a lossy integer cast silently puts a different value in force"""
+    R = 'R11.4'
+    n = nn = 0
+    for b in facts.lib_bodies(['cfgrammar', 'lrlex', 'lrpar', 'lrtable']):
+        if b.from_expansion:
+            continue
+        for bi, blk in enumerate(b.blocks):
+            for st in blk['stmts']:
+                if st['k'] != 'assign' or st['rv'].get('cast') != 'IntToInt':
+                    continue
+                n += 1
+                fr, to = st['rv']['from'], st['rv']['to']
+                wf, wt = INT_BITS.get(fr), INT_BITS.get(to)
+                lossy = wf is None or wt is None or wt < wf
+                if not lossy:
+                    continue
+                # only numbers that are settings: the operand comes out of a `Setting::Num(..)` (header value), or the cast sits
+                # in the flag conversion / builder code itself
+                l = op_local(st['rv']['a'])
+                from_num = False
+                if l is not None:
+                    r, projs, via = b.root(l, through=(), stop_named=False)
+                    from_num = any(isinstance(q, dict) and q.get('name') in ('Num',) for pl in projs for q in pl)
+                if not (from_num or 'LexFlags' in b.path or b.path.startswith(('lrlex::ctbuilder::', 'cfgrammar::header::'))):
+                    continue
+                nn += 1
+                key = 'narrowing:%s/%s->%s' % (strip_generics(b.path), fr, to)
+                res.bad(R, key, '%s:%s' % (b.file, st.get('line')), 'integer value narrowed with `as` (%s -> %s): a number outside the target range '
+                        'silently becomes a different one (e.g. a setting `nest_limit: 4294967297` would be in force as 1); use a checked conversion and report the error' % (fr, to),
+                        {'function': b.path})
+    if nn == 0:
+        res.ok(R, 'no-lossy-int-cast', '', 'no number that is a setting is narrowed with `as` (%d integer casts in the library crates examined)' % n)
+    res.floor(R, 'integer `as` casts examined', n, 5)
+
+
 def run(facts, res):
+    r114(facts, res)
     r113(facts, res)
     r111(facts, res)
     r112(facts, res)
